@@ -4,6 +4,7 @@ package main
 // records one ndjson line per run-loop iteration (from the verif hook in vm.Run) and per engine call.
 
 import (
+	"reflect"
 	"bytes"
 	"context"
 	"encoding/hex"
@@ -287,6 +288,7 @@ type instrEvent struct {
 	Ev    string     `json:"ev"`
 	Sid   string     `json:"sid"`
 	Req   int        `json:"req"`
+	Phase string     `json:"phase"` // main | first (the engine's pre-VM check, run on a private Vm)
 	Seq   int        `json:"seq"`
 	Last  bool       `json:"last"`
 	Panic bool       `json:"panic"`
@@ -302,6 +304,7 @@ type sessRec struct {
 	seq   int
 	ext   []extEntry
 	prev  *viseSnap
+	prevPhase string
 	buf   []*instrEvent
 	vmp   *vm.Vm
 	out   *ndw
@@ -320,10 +323,24 @@ func viseHook(ev string, v *vm.Vm, b []byte) {
 	if r == nil {
 		return
 	}
-	r.vmp = v
+	// the engine's pre-VM check runs on a private Vm (own renderer objects) with the pseudo node "_first" on the path
+	phase := "main"
+	if st, _, _, _ := v.VerifParts(); st != nil {
+		for _, n := range st.ExecPath {
+			if n == "_first" {
+				phase = "first"
+			}
+		}
+	}
+	if r.prev != nil && r.prevPhase == "first" {
+		phase = "first" // the iteration that leaves the scratch node still belongs to the check
+	}
+	if phase == "main" {
+		r.vmp = v
+	}
 	s := snapVm(v, b, true)
 	if r.prev != nil {
-		e := &instrEvent{Ev: "instr", Sid: r.sid, Req: r.req, Seq: r.seq, Last: ev == "exit", Pre: *r.prev, Post: s, Ext: r.ext}
+		e := &instrEvent{Ev: "instr", Sid: r.sid, Req: r.req, Phase: phase, Seq: r.seq, Last: ev == "exit", Pre: *r.prev, Post: s, Ext: r.ext}
 		if e.Ext == nil {
 			e.Ext = []extEntry{}
 		}
@@ -333,8 +350,13 @@ func viseHook(ev string, v *vm.Vm, b []byte) {
 	r.ext = nil
 	if ev == "exit" {
 		r.prev = nil
+		r.prevPhase = ""
+		if phase == "first" {
+			r.seq = 0 // the application's run numbers its own iterations
+		}
 	} else {
 		r.prev = &s
+		r.prevPhase = phase
 	}
 }
 
@@ -386,6 +408,9 @@ type reqEvent struct {
 	Outsize  int        `json:"outsize"`
 	Outerr   errpRec    `json:"outerr"` // error prefix found on the first line of the output
 	Picks    []int      `json:"picks"` // alternative chosen by each external call of this request, in call order
+	Cfg      EngineOpts `json:"cfg"`   // engine options in force
+	Nfirst   int        `json:"nfirst"` // iterations of the pre-VM check (not counted in niter)
+	Initd    bool       `json:"initd"`  // the engine object is initialised after Exec (Finish saves the session only then)
 }
 
 var inputRe = regexp.MustCompile(`^\+?[a-zA-Z0-9].*$`)
@@ -416,6 +441,8 @@ type engineHost struct {
 	nreq  int
 	picks []int
 	initd bool
+	// mode "R": persisted operation through ONE Persister object that the application reuses for every request of every session
+	sharedPe *persist.Persister
 }
 
 func newHost(prog *Program, rec *sessRec, mode string, store dbLike, pick func(string, int) int) *engineHost {
@@ -429,8 +456,43 @@ func newHost(prog *Program, rec *sessRec, mode string, store dbLike, pick func(s
 		return i
 	}}
 	h.cfg = engine.Config{Root: prog.Root, FlagCount: uint32(prog.FlagCount), OutputSize: uint32(prog.OutputSize),
-		CacheSize: uint32(prog.CacheSize), SessionId: rec.sid, Language: prog.Language}
+		CacheSize: uint32(prog.CacheSize), SessionId: rec.sid, Language: prog.Language, ResetOnEmptyInput: prog.Engine.Rempty}
 	return h
+}
+
+// withOpts installs the application's pre-VM check function: the alternatives of the symbol "_first", chosen and logged
+// like any other external function (the engine calls it through a private resource, so only the call itself is visible).
+func (h *engineHost) withOpts(en *engine.DefaultEngine) *engine.DefaultEngine {
+	if !h.prog.Engine.First {
+		return en
+	}
+	alts := h.prog.Syms["_first"]
+	return en.WithFirst(func(ctx context.Context, nodeSym string, input []byte) (resource.Result, error) {
+		d := alts[h.rs.pick("_first", len(alts))%len(alts)]
+		content := d.content()
+		t := tok(content)
+		e := extEntry{Kind: "func", Sym: "_first", Ok: !d.Err, Len: t.Len, Id: t.Id, Set: d.Set, Reset: d.Reset, Lang: langClass(content), Ctxlang: ctxLang(ctx)}
+		if d.Err {
+			e.Len, e.Id, e.Lang = 0, "", ""
+		}
+		h.rs.log(e)
+		if d.Err {
+			return resource.Result{}, fmt.Errorf("pre-VM check fails")
+		}
+		res := resource.Result{Content: content}
+		for _, f := range d.Set {
+			res.FlagSet = append(res.FlagSet, uint32(f))
+		}
+		for _, f := range d.Reset {
+			res.FlagReset = append(res.FlagReset, uint32(f))
+		}
+		return res, nil
+	})
+}
+
+// engineInitd reads the engine object's own "initialised" mark.
+func engineInitd(en *engine.DefaultEngine) bool {
+	return reflect.ValueOf(en).Elem().FieldByName("initd").Bool()
 }
 
 func (h *engineHost) freshCache() *cache.Cache {
@@ -456,7 +518,7 @@ func (h *engineHost) request(input string) *reqEvent {
 	rec.req = h.nreq
 	rec.seq = 0
 	h.nreq++
-	ev := &reqEvent{Ev: "req", Sid: rec.sid, Req: rec.req, Mode: h.mode, Input: enc(input), Incls: inputClass(input), Outsize: h.prog.OutputSize}
+	ev := &reqEvent{Ev: "req", Sid: rec.sid, Req: rec.req, Mode: h.mode, Input: enc(input), Incls: inputClass(input), Outsize: h.prog.OutputSize, Cfg: h.prog.Engine}
 	var en *engine.DefaultEngine
 	var pe *persist.Persister
 	if h.mode == "L" {
@@ -466,19 +528,19 @@ func (h *engineHost) request(input string) *reqEvent {
 			if h.prog.CacheSize > 0 {
 				h.ca = h.ca.WithCacheSize(uint32(h.prog.CacheSize))
 			}
-			h.en = engine.NewEngine(h.cfg, h.rs).WithState(h.st).WithMemory(h.ca)
-			h.initd = false
+			h.en = h.withOpts(engine.NewEngine(h.cfg, h.rs).WithState(h.st).WithMemory(h.ca))
 		}
-		// the engine object initialises the session in its first Exec, unless that Exec refuses an over-long input first
-		ev.Fresh = !h.initd
-		if inputClass(input) != "long" {
-			h.initd = true
-		}
+		// the engine object initialises the session in the first Exec that gets through init (an over-long input, or a
+		// pre-VM check that stops the request, leave it uninitialised): read from the object itself
+		ev.Fresh = !engineInitd(h.en)
 		en = h.en
 		ev.Pre = h.snapNow()
 	} else {
 		pe = persist.NewPersister(h.store)
-		en = engine.NewEngine(h.cfg, h.rs).WithPersister(pe)
+		if h.mode == "R" {
+			pe = h.sharedPe
+		}
+		en = h.withOpts(engine.NewEngine(h.cfg, h.rs).WithPersister(pe))
 		ev.Fresh = true
 		rec.vmp = nil
 		ev.Pre, _ = h.loadStored()
@@ -513,8 +575,12 @@ func (h *engineHost) request(input string) *reqEvent {
 		summary(map[string]any{"hang": true, "sid": rec.sid})
 		os.Exit(0)
 	}
-	ev.Niter = len(rec.buf)
 	for _, e := range rec.buf {
+		if e.Phase == "first" {
+			ev.Nfirst++
+		} else {
+			ev.Niter++
+		}
 		all = append(all, e.Ext...)
 	}
 	all = append(all, rec.ext...)
@@ -522,8 +588,9 @@ func (h *engineHost) request(input string) *reqEvent {
 		all = []extEntry{}
 	}
 	ev.Ext = all
+	ev.Initd = engineInitd(en)
 	rec.flushInstr(ev.Panic != "")
-	if h.mode == "P" {
+	if h.mode != "L" {
 		h.st = pe.GetState()
 		h.ca = pe.Memory
 	}
@@ -564,7 +631,7 @@ func (h *engineHost) request(input string) *reqEvent {
 	rec.flushInstr(ev.Fpanic != "")
 	rec.ext = nil
 	ev.Post2 = h.snapNow()
-	if h.mode == "P" {
+	if h.mode != "L" {
 		func() {
 			defer func() {
 				if r := recover(); r != nil {
@@ -634,6 +701,20 @@ func genProgram(rng *rand.Rand, name string) *Program {
 	}
 	clientFlag := func() int { return 8 + rng.Intn(fc) }
 	anyFlag := func() int { return rng.Intn(nflags) }
+	if rng.Intn(6) == 0 {
+		// many client flags (the state stores them in several bytes): indices beyond 255 next to the low ones
+		fc = 250 + rng.Intn(60)
+		p.FlagCount = fc
+		nflags = 8 + fc
+		wide := []int{8, 9, 255, 256, 257, 260, 262, 263, 264, 265, 8 + fc - 1}
+		clientFlag = func() int { return wide[rng.Intn(len(wide))] }
+		anyFlag = func() int {
+			if rng.Intn(3) == 0 {
+				return rng.Intn(8)
+			}
+			return wide[rng.Intn(len(wide))]
+		}
+	}
 	// symbols
 	nsym := 2 + rng.Intn(4)
 	var syms []string
@@ -755,6 +836,16 @@ func genProgram(rng *rand.Rand, name string) *Program {
 			p.Nodes[n] = code
 			continue
 		}
+		if rng.Intn(5) == 0 && len(mapped) > 0 {
+			// a second screen of the same node, reached without any move (the input-check idiom HALT / RELOAD / MAP / HALT)
+			for _, m := range mapped {
+				if rng.Intn(2) == 0 {
+					code = append(code, Instr{Op: "RELOAD", A: m})
+				}
+				code = append(code, Instr{Op: "MAP", A: m})
+			}
+			code = append(code, Instr{Op: "HALT"})
+		}
 		ni := 1 + rng.Intn(5)
 		for k := 0; k < ni; k++ {
 			var tgt string
@@ -801,6 +892,21 @@ func genProgram(rng *rand.Rand, name string) *Program {
 	}
 	delete(inputs, "*")
 	p.Inputs = sortedKeys(inputs)
+	// engine options of the application
+	if rng.Intn(8) == 0 {
+		p.Engine.Rempty = true
+	}
+	if rng.Intn(8) == 0 {
+		p.Engine.First = true
+		alts := []SymResult{{Set: []int{}, Reset: []int{}}, {Len: 2, Id: "f", Set: []int{clientFlag()}, Reset: []int{}}, {Len: 1, Id: "f", Set: []int{}, Reset: []int{clientFlag()}}}
+		if rng.Intn(2) == 0 {
+			alts = append(alts, SymResult{Len: 3, Id: "f", Set: []int{6}, Reset: []int{}}) // the check blocks the session, with a message
+		}
+		if rng.Intn(3) == 0 {
+			alts = append(alts, SymResult{Err: true, Set: []int{}, Reset: []int{}})
+		}
+		p.Syms["_first"] = alts
+	}
 	// a child may not be its own parent on any path: a named move to X while X is on top panics in state.Down
 	// (outside C08's hypothesis); targets equal to the node itself were replaced by "." above.
 	p.build()
